@@ -35,7 +35,20 @@ impl Report {
     }
 }
 
+/// measured exploration statistics a module may attach to its report: (distinct non-trivial cases, rule, samples)
+pub static EXTRA: std::sync::Mutex<Option<(u64, String, Vec<Value>)>> = std::sync::Mutex::new(None);
+
 pub fn run(name: &str, tier: &str) -> Option<Value> {
+    let mut v = run_inner(name, tier)?;
+    if let Some((n, rule, samples)) = EXTRA.lock().unwrap().take() {
+        v["distinct_nontrivial"] = json!(n);
+        v["rule"] = json!(rule);
+        v["samples"] = json!(samples);
+    }
+    Some(v)
+}
+
+fn run_inner(name: &str, tier: &str) -> Option<Value> {
     Some(match name {
         "redact" => redact::run(tier).to_json(),
         "pushcond" => pushcond::run(tier).to_json(),
